@@ -11,8 +11,22 @@ ORDER = {'rev': False}
 
 
 def _prange(*a):
+    """stands in for numba.prange: forwards or backwards, and tells the access recorder (vf.instr.RACE) which iteration of the OUTERMOST
+    parallel loop is running (numba distributes only the outermost prange over threads, inner ones run serially in their thread)"""
+    from vf import instr
     r = range(*a)
-    return reversed(r) if ORDER['rev'] else r
+    seq = reversed(r) if ORDER['rev'] else r
+    depth = instr.RACE['depth']
+    for i in seq:
+        if depth == 0:
+            instr.RACE['iter'] = i
+        instr.RACE['depth'] = depth + 1
+        try:
+            yield i
+        finally:
+            instr.RACE['depth'] = depth
+            if depth == 0:
+                instr.RACE['iter'] = None
 
 
 def _install_prange():
@@ -22,7 +36,7 @@ def _install_prange():
         m.prange = _prange
 
 
-def order(kernel='refinement', method='vfit', measure='min', R=2, C=2, D=3, cap=120, block=()):
+def order(kernel='refinement', method='vfit', measure='min', R=2, C=2, D=3, cap=120, block=(), concrete=False):
     from vf import symnp as S, instr
     from vf.explore import EX, explore
     from vf.hutil import Collector
@@ -37,7 +51,7 @@ def order(kernel='refinement', method='vfit', measure='min', R=2, C=2, D=3, cap=
 
     def h():
         shapes = {}
-        ex = {'order': kernel, 'method': method, 'measure': measure, 'R': R, 'C': C, 'D': D}
+        ex = {'order': kernel, 'method': method, 'measure': measure, 'R': R, 'C': C, 'D': D, 'concrete': concrete}
         if kernel in ('refinement', 'approximate_refinement'):
             cv = S.fresh_array('cv', (R, C, D), 'x4', tagged=True, tags=(0, 1), real=True); shapes['cv'] = ((R, C, D), 'x4')
             mask = S.fresh_array('m', (R, C), 'u2'); shapes['m'] = ((R, C), 'u2')
@@ -58,6 +72,22 @@ def order(kernel='refinement', method='vfit', measure='min', R=2, C=2, D=3, cap=
                 return fn(c, d, m, -1, -1 + D - 1, 1, measure, r_.refinement_method)
         elif kernel in ('ambiguity', 'sampled_ambiguity', 'risk', 'sampled_risk', 'bounds'):
             cv = c12._cv(S, EX, R, C, D, shapes)
+            if R > 1:
+                # one fully symbolic pixel is enough for the value comparison; the other non-pinned pixels are concrete so that the number of
+                # paths stays that of one pixel (the access sets of the race check do not depend on their values beyond the branches taken)
+                rngc = np.random.RandomState(11)
+                first_sym = not concrete          # concrete=True: every non-pinned pixel concrete (fast multi-row run for the access-set check)
+                for (r_, c_) in np.ndindex(R, C):
+                    if (r_, c_) in ((0, 0), (R - 1, C - 1)):
+                        continue
+                    if first_sym:
+                        first_sym = False; continue
+                    for d_ in range(D):
+                        v_ = float(rngc.randint(4, 28)) / 4
+                        if rngc.rand() < 0.15:
+                            EX.assume(cv._a[r_, c_, d_].t.tag == 1); cv._a[r_, c_, d_] = np.float32('nan'); continue
+                        EX.assume(z3.And(cv._a[r_, c_, d_].t.tag == 0, cv._a[r_, c_, d_].t.val == z3.RealVal(str(v_))))
+                        cv._a[r_, c_, d_] = np.float32(v_)
 
             def run():
                 c = cv.copy()
@@ -83,10 +113,17 @@ def order(kernel='refinement', method='vfit', measure='min', R=2, C=2, D=3, cap=
                 return IT.interval_regularization(inf_.copy(), sup_.copy(), amb.copy(), 0.6, 3, 1, 1.0)
         col.shapes = shapes
         outs = []
+        races = []
         for rev in (False, True):
             ORDER['rev'] = rev
+            if not rev:
+                instr.race_reset()
+            else:
+                instr.RACE['on'] = False
             try:
                 outs.append(('ok', run()))
+                if not rev:
+                    races = instr.race_conflicts()
             except S.Unsupported:
                 ORDER['rev'] = False
                 raise
@@ -95,6 +132,11 @@ def order(kernel='refinement', method='vfit', measure='min', R=2, C=2, D=3, cap=
         ORDER['rev'] = False
         props = []
         (s1, o1), (s2, o2) = outs
+        # data races: a memory cell written in one iteration of the distributed loop and read or written in another one (shared scratch
+        # buffers, accumulators, overlapping output cells).  Decided on the access sets of this path.
+        ex['races'] = [(hex(c), w, o) for c, w, o in races[:4]]
+        props.append(("no-cell-is-written-by-one-parallel-iteration-and-touched-by-another", z3.BoolVal(not races)))
+        ex['recorded_cells'] = [len(instr.RACE['reads']), len(instr.RACE['writes'])]
         props.append(("same-outcome-kind-for-both-schedules", z3.BoolVal(s1 == s2 and (s1 == 'ok' or o1 == o2))))
         if s1 == s2 == 'ok':
             for i, (a, b) in enumerate(zip(o1, o2)):
@@ -109,7 +151,8 @@ def order(kernel='refinement', method='vfit', measure='min', R=2, C=2, D=3, cap=
                     else:
                         eqs.append(z3.BoolVal(bool(x_ == y_ or (x_ != x_ and y_ != y_))))
                 props.append(("output-%d-identical-for-forward-and-backward-schedules" % i, z3.And(*eqs) if eqs else z3.BoolVal(True)))
-        col.check_path(props, label='p%d' % len(EX.trace), extra=ex, witnesses=[("reached", z3.BoolVal(True))])
+        col.check_path(props, label='p%d' % len(EX.trace), extra=ex,
+                       witnesses=[("reached", z3.BoolVal(True)), ("array-accesses-of-the-parallel-iterations-were-recorded", z3.BoolVal(len(instr.RACE['writes']) > 0))])
         info['fn'] = instr.fn_hash(RF.AbstractRefinement.loop_refinement, RF.AbstractRefinement.loop_approximate_refinement, AM.Ambiguity.compute_ambiguity,
                                    RK.Risk.compute_risk, IB.IntervalBounds.compute_interval_bounds, IT.create_connected_graph, IT.graph_regularization)
     res, stats = explore(h, max_paths=3000, time_cap_s=900)
@@ -265,6 +308,11 @@ def replay(cex):
     if x['order'] in ('refinement', 'approximate_refinement'):
         runs += [('jit-1-thread', {'NUMBA_NUM_THREADS': '1'}), ('jit-2-threads', {'NUMBA_NUM_THREADS': '2'}), ('jit-4-threads', {'NUMBA_NUM_THREADS': '4'}),
                  ('jit-parallel-off', {'PANDORA_NUMBA_PARALLEL': 'False'})]
+    elif x['order'] != 'graph':
+        # compiled kernels on the model cost volume tiled to 96 x 64 pixels (a race needs several rows per thread to show): one thread as the
+        # reference, then several runs with 4 and 8 threads
+        runs = [('jit-tiled-1-thread', {'NUMBA_NUM_THREADS': '1', 'C18_TILE': '1'})] + \
+               [('jit-tiled-%d-threads-run-%d' % (nt, i), {'NUMBA_NUM_THREADS': str(nt), 'C18_TILE': '1'}) for nt in (4, 8) for i in range(3)] + runs
     for name, e in runs:
         env = dict(os.environ, VF_REPO=os.environ.get('VF_REPO', '/repo'), PYTHONPATH='/verif')
         env.pop('NUMBA_DISABLE_JIT', None)
@@ -273,7 +321,14 @@ def replay(cex):
         lines = [l for l in p.stdout.strip().splitlines() if l.startswith('OUT ')]
         outs.append((name, lines[-1][4:] if lines else 'ERR ' + p.stderr[-300:]))
     os.unlink(f.name)
-    distinct = set(o for _, o in outs)
+    groups = {}
+    for n_, o_ in outs:
+        groups.setdefault('tiled' if 'tiled' in n_ else 'model', []).append((n_, o_))
+    distinct = set()
+    for g_, lst in groups.items():
+        if len(set(o for _, o in lst)) > 1:
+            distinct = set(o for _, o in lst); outs = lst
+            break
     if len(distinct) > 1:
         ref = outs[0][1]
         return {'violates': True, 'detail': 'the real kernel gives different results under different schedules: %s differ from interp-forward; %s' %
@@ -306,6 +361,10 @@ def _real_main(path):
     else:
         cv = np.array(inp['cv'], np.float32).reshape(R, C, D)
         cv[0, 0, :] = [0.0] + [float(2 + (i % 3)) for i in range(D - 1)]; cv[R - 1, C - 1, :] = [float(5 - (i % 2)) for i in range(D - 1)] + [8.0]
+        if os.environ.get('C18_TILE') == '1':
+            rngt = np.random.RandomState(0)
+            cv = np.tile(cv, (96 // R + 1, 64 // C + 1, 1))[:96, :64, :].copy()
+            cv += (rngt.randint(0, 4, size=cv.shape) / 4.0).astype(np.float32) * ~np.isnan(cv)      # rows differ from one another
         if k == 'ambiguity':
             out = (AM.Ambiguity.compute_ambiguity(cv, 0.0, 0.5, 0.25),)
         elif k == 'sampled_ambiguity':
@@ -318,4 +377,6 @@ def _real_main(path):
                 out = RK.Risk.compute_risk_and_sampled_risk(cv, samp, 0.0, 0.5, 0.25)
             else:
                 out = IB.IntervalBounds.compute_interval_bounds(cv, np.arange(-1, -1 + D).astype(np.float32), 0.75, -1.0 if e['measure'] == 'min' else 1.0)
-    print('OUT ' + json.dumps([[None if v != v else v for v in np.asarray(o).astype(float).ravel().tolist()] for o in out]))
+    import hashlib
+    flat = [[None if v != v else v for v in np.asarray(o).astype(float).ravel().tolist()] for o in out]
+    print('OUT ' + (json.dumps(flat) if sum(len(f_) for f_ in flat) < 400 else 'sha1:' + hashlib.sha1(json.dumps(flat).encode()).hexdigest()))
